@@ -291,6 +291,28 @@ def generate(rng, tier):
             probs = _rand_probs(rng, T)
             probs[0] = probs[0] if probs[0] != 0 else Fraction(1, 2)
             yield _case(mode, probs, [i + 2 for i in range(T)], lo, hi, target, _rand_fps(rng, w), "enum")
+    # large degrees (beyond CPython's small-int cache, 256) and numpy integer parameters: `k is target`,
+    # `isinstance(x, int)`, uint8 tables ... only show there
+    for j in range(3 if quick else 12):
+        T = 2
+        lo = rng.randint(254, 258)
+        w = 2
+        hi = lo + w
+        target = [257 if lo <= 257 < hi else lo + 1, lo + 1, lo][j % 3]
+        # unit probabilities keep the exact rationals of the model small at these degrees (weights are all 1)
+        probs = [Fraction(1), Fraction(1)]
+        c = _case(1, probs, [2, 3], lo, hi, target, [Fraction(1, 2), Fraction(1, 4)], "large-degrees")
+        c["np_ints"] = j % 3
+        yield c
+    for j in range(6 if quick else 30):
+        T = rng.choice([1, 2, 3])
+        lo = rng.randint(0, 6)
+        w = rng.randint(1, 4)
+        probs = _rand_probs(rng, T)
+        probs[0] = probs[0] if probs[0] != 0 else Fraction(1, 2)
+        c = _case(1, probs, [i + 2 for i in range(T)], lo, lo + w, rng.randint(lo, lo + w - 1), _rand_fps(rng, w), "numpy-ints")
+        c["np_ints"] = 1 + j % 2
+        yield c
     for c in _malformed(rng):
         yield c
     n = 500 if quick else 6000
@@ -351,6 +373,9 @@ def impl(case):
              N.LOW_HIGH_DEGREE_BOUND: bound_obj if own else tuple(bound_obj)}
         if case["mode"] == 1:
             p[N.TARGET_K] = case["target"]
+            if case.get("np_ints", 0) >= 1:
+                import numpy as np
+                p[N.TARGET_K] = (np.int64 if case["np_ints"] == 1 else np.int32)(case["target"])
         return p
 
     cls = JointDegreeSplitDegree if case["mode"] == 0 else JointDegreeDelta
